@@ -752,12 +752,6 @@ where
         R_: Registry,
     {
         if TypeId::of::<C>() == TypeId::of::<C_>() {
-            // The component is being removed from the entity, so it is dropped here.
-            drop(
-                // SAFETY: `buffer` is guaranteed to point to a valid, properly initialized value of
-                // type `C` at this point, which is not read again afterwards.
-                unsafe { buffer.cast::<C>().read_unaligned() },
-            );
             // Skip this component in the buffer.
             buffer =
                 // SAFETY: The bit buffer is guaranteed to have a value of type `C` at this point
